@@ -92,6 +92,7 @@ type FuncEnc struct {
 	seqLen map[string]string // spec-level sequences: element-array term -> length term
 	sentinelVals []string
 	linked map[string]bool
+	storeReach map[string][]string // "Type.field" -> reach conditions of direct stores (all frames)
 }
 
 type CallSite struct {
@@ -178,6 +179,11 @@ func (fe *FuncEnc) define(name string, k Sort, expr string) string {
 
 func (fe *FuncEnc) assume(expr string) {
 	if expr == "" || expr == "true" {
+		return
+	}
+	if strings.HasPrefix(expr, "(forall ") {
+		// quantified modelling facts (append, frames): excluded from the vacuity canary, which needs a sat answer
+		fe.emit("(assert " + expr + ") ; axiom")
 		return
 	}
 	fe.emit("(assert " + expr + ")")
